@@ -459,6 +459,43 @@ def for_kept_scripts():
     return out
 
 
+def self_keyed_scripts():
+    """the key, the value or the right-hand side of an update reads the very object being updated (directly, through an
+    alias, through a call): `o[o.next] = v` is `k := o.next; o[k] = v`"""
+    out = []
+    base = {"next": "slot", "slot": 1, "n": 2}
+    keyx = [("o.next", "slot"), ('o["next"]', "slot"), ("al.next", "slot"), ("pick(o)", "slot"), ('o.next + "2"', "slot2"),
+            ('$"${o.next}"', "slot")]
+    valx = [("5", 5), ("o.n", 2), ('o["slot"]', 1), ("al.n + 1", 3), ("count(o)", 3)]
+    for kx, k in keyx:
+        for vx, v in valx:
+            for form in ("=", "+=", ".="):
+                if form == "+=" and k not in base:
+                    continue
+                sc = L.Script()
+                sc.stmt(f"o := {L.lit(base)}")
+                sc.stmt("al := o")
+                sc.stmt("fn pick(x) { return x.next; }")
+                sc.stmt("fn count(x) { n := 0; for [k, v] in x { n += 1; }; return n; }")
+                exp = dict(base)
+                if form == "=":
+                    sc.stmt(f"o[{kx}] = {vx}")
+                    exp[k] = v
+                elif form == "+=":
+                    sc.stmt(f"o[{kx}] += {vx}")
+                    exp[k] = exp[k] + v
+                else:
+                    sc.stmt(f"o.n = o[{kx if k in base else 'o.next'}] + {vx}")
+                    exp["n"] = exp[k if k in base else "slot"] + v
+                sc.stmt("print(o)")
+                sc.expect(exp)
+                sc.stmt("print(al === o)")
+                sc.expect(True)
+                sc.tags = ["self-keyed", kx, vx, form]
+                out.append(sc.source({"tags": sc.tags}))
+    return out
+
+
 def classify(src, r):
     p = L.prediction(src) or {}
     return (tuple(p.get("tags", []))[:8], L.err_class(r))
@@ -476,6 +513,7 @@ def run(ctx, model_ok):
         nhist, maxops = 30000, 5
     ctx.cov["exhaustive"] = True
     L.run_stream(ctx, "for-kept", for_kept_scripts(), model_ok, classify=classify)
+    L.run_stream(ctx, "self-keyed", self_keyed_scripts(), model_ok, classify=classify)
     impl = L.run_stream(ctx, "perms", perms, model_ok, classify=lambda s, r: ("perm", s.split("\n")[1][:40], r["status"]))
     # metamorphic leg: within a group (same pairs, all insertion orders) the output is one and the same text
     res = dict(zip(list(dict.fromkeys(perms)), impl))
